@@ -1,5 +1,6 @@
 import VaxisModel.Driver.Common
 import VaxisModel.Model.ImageFit
+import VaxisModel.Model.ImageTerm
 import VaxisModel.Model.Blocks
 import VaxisModel.Model.Placements
 import VaxisModel.Spec.Images
@@ -45,9 +46,9 @@ def showDims : Except Panic (Nat × Nat) → String
   | .error _ => "panic"
 
 def dimsVerdict (wPix hPix w h cellW cellH : Nat) (impl : String) : String :=
-  if cellW = 0 ∨ cellH = 0 then
-    if impl = "panic" then s!"FAIL panic: integer divide by zero for cell geometry {cellW}x{cellH}"
-    else "ok"
+  -- a zero cell geometry is outside what resizeImage's callers pass since the F52 repair (`cellPixelSize` ≥ 1,
+  -- literals 1×2): model ≡ code only (both panic)
+  if cellW = 0 ∨ cellH = 0 then "-"
   else if impl = "panic" then "FAIL panic"
   else match natList? (fields impl) with
   | some [pw, ph] =>
@@ -338,6 +339,50 @@ def renderVerdict (isSixel : Nat → Bool) (prev : List Placement) (f : Frame) (
 
 def bad : String := "bad-op\tbad-op\tbad-op"
 
+/-- Spec of the cell pixel size (independent of the model): the reported quotient, at least 1. -/
+def specCell (pix cells : Nat) : Nat := if cells = 0 then 1 else max 1 (pix / cells)
+
+/-- The model of `Kitty/Sixel.Resize` for a signed box at the terminal's cell geometry:
+    (pixel size of the resized image, cell size, cell geometry). -/
+def resizeModel (s : Nat × Nat × Nat × Nat) (wPix hPix : Nat) (w h : Int) : Except Panic ((Nat × Nat) × (Nat × Nat) × (Nat × Nat) × Bool) := do
+  let gw := ImageTerm.termCell s.1 s.2.1
+  let gh := ImageTerm.termCell s.2.2.1 s.2.2.2
+  let (pw, ph) ← ImageTerm.resizeDimsBox floatOps wPix hPix w h gw gh
+  let raw ← ImageTerm.resizeRawBox floatOps wPix hPix w h gw gh
+  let cw ← cellsUp pw gw
+  let chh ← cellsUp ph gh
+  -- the rectangle `image.Rect(0, 0, nw, nh)` has no pixels iff an extent is 0 (a negative extent is mirrored)
+  return ((pw, ph), (cw, chh), (gw, gh), raw.1 = 0 ∨ raw.2 = 0)
+
+def parseWxH (key f : String) : Option (Int × Int) :=
+  if f.startsWith (key ++ "=") then
+    match ((f.drop (key.length + 1)).toString).splitOn "x" with
+    | [a, b] => match a.toInt?, b.toInt? with | some a, some b => some (a, b) | _, _ => none
+    | _ => none
+  else none
+
+/-- Oracle on what the implementation reports after a `Resize(w, h)`: `cw ch px=<w>x<h> cell=<w>x<h> …`. -/
+def resizeVerdict (xpix cols ypix rows wPix hPix : Nat) (w h : Int) (impl : String) : String × Nat × Nat :=
+  if impl = "panic" then ("FAIL panic", 0, 0) else
+  match fields impl with
+  | cw :: ch :: px :: cell :: _ =>
+    match cw.toNat?, ch.toNat?, parseWxH "px" px, parseWxH "cell" cell with
+    | some cw, some ch, some (pw, ph), some (gw, gh) =>
+      let sw := specCell xpix cols
+      let sh := specCell ypix rows
+      let v :=
+        if gw ≠ sw ∨ gh ≠ sh then s!"FAIL cell pixel size {gw}x{gh}, the terminal's report means {sw}x{sh}"
+        else if pw < 0 ∨ ph < 0 then "FAIL resizeImage panicked"
+        else if cw ≠ ceilDiv pw.toNat sw ∨ ch ≠ ceilDiv ph.toNat sh then
+          s!"FAIL cell size {cw}x{ch} is not the {ceilDiv pw.toNat sw}x{ceilDiv ph.toNat sh} cells that {pw}x{ph} px occupy"
+        else if (cw : Int) > max 0 w ∨ (ch : Int) > max 0 h then s!"FAIL cell size {cw}x{ch} exceeds box {w}x{h}"
+        else if cw > ceilDiv wPix sw ∨ ch > ceilDiv hPix sh then s!"FAIL upscaled to {cw}x{ch} cells"
+        else "ok"
+      (v, cw, ch)
+    | _, _, _, _ => ("FAIL unparsable result", 0, 0)
+  | _ => ("FAIL unparsable result", 0, 0)
+
+
 def kstep (s : St) (op : List String) (impl : String) : St × String :=
   match op with
   | ["knew", c, r, x, y] =>
@@ -355,29 +400,20 @@ def kstep (s : St) (op : List String) (impl : String) : St × String :=
     | some [n, w, h] => ({ s with imgs := s.imgs ++ [(n, { wPix := w, hPix := h, sixel := true })] }, s!"ok\t{impl}\t-")
     | _ => (s, bad)
   | ["sresize", n, w, h] =>
-    match natList? [n, w, h] with
-    | some [n, w, h] =>
+    match n.toNat?, w.toInt?, h.toInt? with
+    | some n, some w, some h =>
       match s.img? n with
       | none => (s, bad)
       | some (_, k) =>
-        let cellW := s.xpix / s.cols
-        let cellH := s.ypix / s.rows
         let (mcanon, k1) : String × KImg :=
-          match resizeDims floatOps k.wPix k.hPix w h cellW cellH, protoCellSize floatOps k.wPix k.hPix w h cellW cellH with
-          | .ok (pw, ph), .ok (cw, chh) =>
-            if pw = 0 ∨ ph = 0 then (s!"{cw} {chh} empty", { k with mw := cw, mh := chh, hasData := false })
-            else (s!"{cw} {chh}", { k with mw := cw, mh := chh, hasData := true })
-          | _, _ => ("panic", k)
-        let (verdict, k2) : String × KImg :=
-          match (fields impl).take 2 |> natList? with
-          | some [cw, chh] =>
-            let v := if cw > w ∨ chh > h then s!"FAIL cell size {cw}x{chh} exceeds box {w}x{h}"
-                     else if cw > ceilDiv k.wPix cellW ∨ chh > ceilDiv k.hPix cellH then s!"FAIL upscaled to {cw}x{chh} cells"
-                     else "ok"
-            (v, { k1 with iw := cw, ih := chh })
-          | _ => ("FAIL unparsable result", k1)
-        (s.setImg n k2, s!"{mcanon}\t{impl}\t{verdict}")
-    | _ => (s, bad)
+          match resizeModel (s.xpix, s.cols, s.ypix, s.rows) k.wPix k.hPix w h with
+          | .ok ((pw, ph), (cw, chh), (gw, gh), noPixels) =>
+            if noPixels then (s!"{cw} {chh} px={pw}x{ph} cell={gw}x{gh} empty", { k with mw := cw, mh := chh, hasData := false })
+            else (s!"{cw} {chh} px={pw}x{ph} cell={gw}x{gh}", { k with mw := cw, mh := chh, hasData := true })
+          | .error _ => ("panic", k)
+        let (verdict, cw, chh) := resizeVerdict s.xpix s.cols s.ypix s.rows k.wPix k.hPix w h impl
+        (s.setImg n { k1 with iw := cw, ih := chh }, s!"{mcanon}\t{impl}\t{verdict}")
+    | _, _, _ => (s, bad)
   | ["sdraw", n, c, r, ww, wh] =>
     match natList? [n, c, r], ww.toInt?, wh.toInt? with
     | some [n, c, r], some ww, some wh =>
@@ -394,44 +430,39 @@ def kstep (s : St) (op : List String) (impl : String) : St × String :=
         ({ s with ps := ps, cur := cur }, s!"{snap ps}\t{impl}\t-")
     | _, _, _ => (s, bad)
   | ["kresize", n, w, h] =>
-    match natList? [n, w, h] with
-    | some [n, w, h] =>
+    match n.toNat?, w.toInt?, h.toInt? with
+    | some n, some w, some h =>
       match s.img? n with
       | none => (s, bad)
       | some (_, k) =>
-        let cellW := s.xpix / s.cols
-        let cellH := s.ypix / s.rows
-        -- model
         let (mcanon, k1) : String × KImg :=
-          match resizeDims floatOps k.wPix k.hPix w h cellW cellH, protoCellSize floatOps k.wPix k.hPix w h cellW cellH with
-          | .ok (pw, ph), .ok (cw, chh) =>
-            if pw = 0 ∨ ph = 0 then (s!"{cw} {chh} noencode", { k with mw := cw, mh := chh })
-            else (s!"{cw} {chh}", { k with mw := cw, mh := chh, uploaded := false, pending := k.pending + 1 })
-          | _, _ => ("panic", k)
-        -- oracle on the implementation's answer
-        let (verdict, k2) : String × KImg :=
-          if impl = "panic" then
-            (if cellW = 0 ∨ cellH = 0 then s!"FAIL panic: integer divide by zero for cell geometry {cellW}x{cellH}"
-             else "FAIL panic", k1)
-          else match (fields impl).take 2 |> natList? with
-          | some [cw, chh] =>
-            let v := if cw > w ∨ chh > h then s!"FAIL cell size {cw}x{chh} exceeds box {w}x{h}"
-                     else if cw > ceilDiv k.wPix cellW ∨ chh > ceilDiv k.hPix cellH then s!"FAIL upscaled to {cw}x{chh} cells"
-                     else "ok"
-            (v, { k1 with iw := cw, ih := chh })
-          | _ => ("FAIL unparsable result", k1)
-        (s.setImg n k2, s!"{mcanon}\t{impl}\t{verdict}")
-    | _ => (s, bad)
-  | ["kdraw", n, c, r] =>
-    match natList? [n, c, r] with
-    | some [n, c, r] =>
+          match resizeModel (s.xpix, s.cols, s.ypix, s.rows) k.wPix k.hPix w h with
+          | .ok ((pw, ph), (cw, chh), (gw, gh), noPixels) =>
+            if noPixels then (s!"{cw} {chh} px={pw}x{ph} cell={gw}x{gh} noencode", { k with mw := cw, mh := chh })
+            else (s!"{cw} {chh} px={pw}x{ph} cell={gw}x{gh}", { k with mw := cw, mh := chh, uploaded := false, pending := k.pending + 1 })
+          | .error _ => ("panic", k)
+        let (verdict, cw, chh) := resizeVerdict s.xpix s.cols s.ypix s.rows k.wPix k.hPix w h impl
+        (s.setImg n { k1 with iw := cw, ih := chh }, s!"{mcanon}\t{impl}\t{verdict}")
+    | _, _, _ => (s, bad)
+  | "kdraw" :: n :: c :: r :: win =>
+    match natList? [n, c, r], (match win with | [] => some ((-1 : Int), (-1 : Int)) | [a, b] => (match a.toInt?, b.toInt? with | some a, some b => some (a, b) | _, _ => none) | _ => none) with
+    | some [n, c, r], some (ww, wh) =>
       match s.img? n with
       | none => (s, bad)
       | some (id, k) =>
         let ps := (Placements.step s.ps (.draw ⟨id, c, r, k.mw, k.mh⟩)).1
         let s' := { s with ps := ps, cur := s.cur ++ [⟨id, c, r, k.iw, k.ih⟩] }
-        (s', s!"{snap ps}\t{impl}\t-")
-    | _ => (s, bad)
+        -- oracle: a drawn placement must lie inside its window (`KittyImage.Draw` has no size test: F120)
+        let width := childExtent c ww s.cols
+        let height := childExtent r wh s.rows
+        let drawn := (getField impl "N").any fun l => l.any fun e => e.startsWith s!"{id}@{c},{r}:"
+        let verdict :=
+          if impl = "panic" then "FAIL panic"
+          else if drawn ∧ ((k.iw : Int) > width ∨ (k.ih : Int) > height) then
+            s!"FAIL kitty placement {id}@{c},{r} of {k.iw}x{k.ih} cells exceeds its window {width}x{height}"
+          else "ok"
+        (s', s!"{snap ps}\t{impl}\t{verdict}")
+    | _, _ => (s, bad)
   | ["kclear"] =>
     let ps := (Placements.step s.ps .clear).1
     ({ s with ps := ps, cur := [] }, s!"{snap ps}\t{impl}\t-")
@@ -468,6 +499,21 @@ def step (s : St) (line : String) : St × String :=
       let m := showDims (resizeDims floatOps wPix hPix w h cellW cellH)
       (s, s!"{m}\t{impl}\t{dimsVerdict wPix hPix w h cellW cellH impl}")
     | _ => (s, bad)
+  | ["dimsi", wPix, hPix, w, h, cellW, cellH] =>
+    match natList? [wPix, hPix, cellW, cellH], w.toInt?, h.toInt? with
+    | some [wPix, hPix, cellW, cellH], some w, some h =>
+      let m := showDims (ImageTerm.resizeDimsBox floatOps wPix hPix w h cellW cellH)
+      let v :=
+        if 0 ≤ w ∧ 0 ≤ h then dimsVerdict wPix hPix w.toNat h.toNat cellW cellH impl
+        else if impl = "panic" then "FAIL panic on a negative box"
+        else match natList? (fields impl) with
+          | some [pw, ph] =>
+            if ¬ FitsBox pw ph w.toNat h.toNat cellW cellH then
+              s!"FAIL result {pw}x{ph} px for the negative box {w}x{h} is not empty"
+            else "ok"
+          | _ => "FAIL unparsable result"
+      (s, s!"{m}\t{impl}\t{v}")
+    | _, _, _ => (s, bad)
   | "torgb" :: rest =>
     match natList? rest with
     | some [r, g, b, a] =>
